@@ -1379,9 +1379,11 @@ class GenericClient:
             remote_event.objtype,
             remote_event.objpkey,
         )
-        r_obj_complete = Datamodel.getUpdatedObject(
-            r_cachedobj_complete, remote_event.objattrs
-        )
+        # May not exist
+        if cache_complete is not None:
+            r_obj_complete = Datamodel.getUpdatedObject(
+                r_cachedobj_complete, remote_event.objattrs
+            )
 
         self.__processLocalEvent(
             remote_event,
